@@ -4,19 +4,20 @@ CONSTANTS
   Cap = 1
   NSubs = 3
   NVaas = 2
-  MaxFaults = 2
+  MaxFaults = 1
   MaxStall = 1
   MaxResume = 1
   MaxFail = 1
   MaxCancel = 1
   Policies = {"skip", "put", "drop", "kick"}
-  BadAt = 0
-  AllowInvalid = FALSE
+  BadAt = 1
+  AllowInvalid = TRUE
 INVARIANTS
   TypeOK
   ExactDelivery
   MutexDiscipline
   NeverStuckOnSlow
+  RefusedGetNothing
 PROPERTIES
   ServeReaders
   QueueFifo
